@@ -407,3 +407,51 @@ func (n *Node) walk(path []int, f func(path []int, n *Node)) {
 		n.Children[i].walk(path, f)
 	}
 }
+
+// D describes the first difference between two trees.
+type D struct {
+	Kind   string // "", "extra", "missing", "type", "value", "tag"
+	Path   []int  // tags from the root to the parent of the differing element
+	Tag    int    // tag of the differing element
+	Detail string
+}
+
+// DiffD is Diff with a structured result. a is the expected tree, b the observed one.
+func DiffD(a, b Node) D { return diffD(a, b, nil) }
+
+func diffD(a, b Node, path []int) D {
+	if a.Tag != b.Tag {
+		return D{Kind: "tag", Path: path, Tag: a.Tag, Detail: fmt.Sprintf("tag %06X vs %06X", a.Tag, b.Tag)}
+	}
+	if a.Type != b.Type {
+		return D{Kind: "type", Path: path, Tag: a.Tag, Detail: fmt.Sprintf("type %s vs %s", a.Type, b.Type)}
+	}
+	if a.Type != Structure {
+		if d := Diff(a, b, ""); d != "" {
+			return D{Kind: "value", Path: path, Tag: a.Tag, Detail: d}
+		}
+		return D{}
+	}
+	here := append(append([]int{}, path...), a.Tag)
+	for i := 0; i < len(a.Children) || i < len(b.Children); i++ {
+		if i >= len(a.Children) {
+			return D{Kind: "extra", Path: here, Tag: b.Children[i].Tag, Detail: fmt.Sprintf("observed has extra element %06X (%s) at position %d", b.Children[i].Tag, b.Children[i].Type, i)}
+		}
+		if i >= len(b.Children) {
+			return D{Kind: "missing", Path: here, Tag: a.Children[i].Tag, Detail: fmt.Sprintf("observed lacks element %06X (%s) at position %d", a.Children[i].Tag, a.Children[i].Type, i)}
+		}
+		if a.Children[i].Tag != b.Children[i].Tag {
+			// decide whether an element was added or dropped by looking one step ahead
+			if i+1 < len(b.Children) && b.Children[i+1].Tag == a.Children[i].Tag {
+				return D{Kind: "extra", Path: here, Tag: b.Children[i].Tag, Detail: fmt.Sprintf("observed has extra element %06X (%s) at position %d", b.Children[i].Tag, b.Children[i].Type, i)}
+			}
+			if i+1 < len(a.Children) && a.Children[i+1].Tag == b.Children[i].Tag {
+				return D{Kind: "missing", Path: here, Tag: a.Children[i].Tag, Detail: fmt.Sprintf("observed lacks element %06X (%s) at position %d", a.Children[i].Tag, a.Children[i].Type, i)}
+			}
+		}
+		if d := diffD(a.Children[i], b.Children[i], here); d.Kind != "" {
+			return d
+		}
+	}
+	return D{}
+}
